@@ -22,6 +22,7 @@ import (
 	"github.com/thushan/olla/internal/adapter/discovery"
 	"github.com/thushan/olla/internal/adapter/health"
 	"github.com/thushan/olla/internal/adapter/proxy/core"
+	"github.com/thushan/olla/internal/adapter/registry/profile"
 	"github.com/thushan/olla/internal/config"
 	"github.com/thushan/olla/internal/core/domain"
 	"github.com/thushan/olla/internal/core/ports"
@@ -82,9 +83,13 @@ func (e *os_SyscallError) Unwrap() error { return e.e }
 
 // ---------------------------------------------------------------- world
 
-type discAdapter struct{ repo *discovery.StaticEndpointRepository }
+type discAdapter struct {
+	repo *discovery.StaticEndpointRepository
+}
 
-func (d *discAdapter) GetEndpoints(c context.Context) ([]*domain.Endpoint, error) { return d.repo.GetAll(c) }
+func (d *discAdapter) GetEndpoints(c context.Context) ([]*domain.Endpoint, error) {
+	return d.repo.GetAll(c)
+}
 func (d *discAdapter) GetHealthyEndpoints(c context.Context) ([]*domain.Endpoint, error) {
 	return d.repo.GetHealthy(c)
 }
@@ -101,13 +106,13 @@ func (f *fixedSelector) Select(c context.Context, eps []*domain.Endpoint) (*doma
 	}
 	return eps[0], nil
 }
-func (f *fixedSelector) Name() string                             { return "fixed" }
-func (f *fixedSelector) IncrementConnections(*domain.Endpoint)    {}
-func (f *fixedSelector) DecrementConnections(*domain.Endpoint)    {}
+func (f *fixedSelector) Name() string                          { return "fixed" }
+func (f *fixedSelector) IncrementConnections(*domain.Endpoint) {}
+func (f *fixedSelector) DecrementConnections(*domain.Endpoint) {}
 
 type nullWriter struct{ h http.Header }
 
-func (n *nullWriter) Header() http.Header        { return n.h }
+func (n *nullWriter) Header() http.Header         { return n.h }
 func (n *nullWriter) Write(b []byte) (int, error) { return len(b), nil }
 func (n *nullWriter) WriteHeader(int)             {}
 
@@ -123,7 +128,7 @@ type world struct {
 func newWorld(interval, timeout time.Duration) (*world, error) {
 	vclock.SetFrozen()
 	w := &world{client: &scripted{outcome: "ok"}, interval: interval}
-	w.repo = discovery.NewStaticEndpointRepository()
+	w.repo = discovery.NewStaticEndpointRepositoryWithFactory(sharedFactory())
 	p := 100
 	if err := w.repo.LoadFromConfig(ctx, []config.EndpointConfig{{URL: "http://10.9.9.1:8000", Name: "e1", Type: "openai-compatible", Priority: &p,
 		HealthCheckURL: "/health", ModelURL: "/v1/models", CheckInterval: interval, CheckTimeout: timeout}}); err != nil {
@@ -143,16 +148,16 @@ func (w *world) ep() *domain.Endpoint {
 // ---------------------------------------------------------------- reference automaton
 
 type ref struct {
-	status     string
-	f          int
-	next       time.Duration // virtual offsets
-	lastCheck  time.Duration
-	haveCheck  bool
-	probes     int
-	callbacks  int
-	bMode      int // 0 closed 1 open 2 half
-	bRun       int
-	bLastF     time.Duration
+	status      string
+	f           int
+	next        time.Duration // virtual offsets
+	lastCheck   time.Duration
+	haveCheck   bool
+	probes      int
+	callbacks   int
+	bMode       int // 0 closed 1 open 2 half
+	bRun        int
+	bLastF      time.Duration
 	bLastProbe  time.Duration
 	interval    time.Duration
 	bModeBefore int
@@ -362,6 +367,20 @@ func histStr(h []event) string {
 	return strings.Join(s, " ")
 }
 
+var theFactory *profile.Factory
+
+// sharedFactory loads the shipped profile YAML once per worker (outside any controlled execution).
+func sharedFactory() *profile.Factory {
+	if theFactory == nil {
+		f, err := profile.NewFactoryWithDefaults()
+		if err != nil {
+			panic(err)
+		}
+		theFactory = f
+	}
+	return theFactory
+}
+
 var reported = map[string]bool{}
 
 func violate(clause string, wit map[string]any, detail string, rp map[string]any) {
@@ -509,10 +528,11 @@ var lastKey string
 func stateKey(h []event) string { return histStr(h) }
 
 func main() {
+	sharedFactory()
 	res = report.Init("C07", "model_checking")
-	depth := 5
+	depth := 6
 	if report.Thorough() {
-		depth = 7
+		depth = 8
 	}
 	explore(5*time.Second, 2*time.Second, depth, false)
 	explore(30*time.Second, 10*time.Second, depth-1, false)
